@@ -200,3 +200,15 @@ package eq
 //@   ensures Tuple{N}(<<i=1..N|, |e$i>>).Eqv(x, y) && Tuple{N}(<<i=1..N|, |e$i>>).Eqv(y, z) ==> Tuple{N}(<<i=1..N|, |e$i>>).Eqv(x, z)
 //@   tag trans
 //@ schema end
+//
+// eq.Bytes = bytes.Equal (trusted model: its definition)
+//@ lemma bytesEq(a, b, c []byte)
+//@   prop C09
+//@   ensures Bytes.Eqv(a, a)
+//@   tag reflexive
+//@   ensures Bytes.Eqv(a, b) == Bytes.Eqv(b, a)
+//@   tag symmetric
+//@   ensures Bytes.Eqv(a, b) && Bytes.Eqv(b, c) ==> Bytes.Eqv(a, c)
+//@   tag transitive
+//@   ensures Bytes.Eqv(a, b) == (len(a) == len(b) && (forall i int :: 0 <= i && i < len(a) ==> a[i] == b[i]))
+//@   tag exact
